@@ -11,7 +11,8 @@ class C05(ProgProp):
             "producing CPython and starts_line of every instruction (dup_lines=False) == dis's; also drawn line tables "
             "(any lnotab byte pairs; well-formed 3.10 range tables; 3.11+ location tables of every entry form) attached "
             "to native code objects, and - inside workers of hosts 3.8-3.13 - native code objects, their "
-            "codeType2Portable copies and their marshal round trip against the host's dis; non-trivial = "
+            "codeType2Portable copies and their marshal round trip against the host's dis; offset2line(q, starts) against a linear-scan model on drawn sorted "
+            "start lists; non-trivial = "
             "line table with a |delta| >= 128 or a decreasing line; distinct = (version, line starts)")
     assumptions = ["CPython's dis.findlinestarts is ground truth; 3.13 starts_line is a bool: line_number is used"]
 
@@ -25,9 +26,49 @@ class C05(ProgProp):
         def host_case(draw):
             h = draw(st.sampled_from(HOSTS))
             return {"k": "host", "host": h, "src": draw(gp.programs(h, size=draw(st.integers(2, 4)), bulk=False))}
-        return st.one_of(base, base, base, base, host_case())
+        # offset2line(): sorted (offset, line) lists and query offsets; model = linear scan
+        offs = st.lists(st.integers(0, 70000), min_size=0, max_size=12, unique=True).map(sorted)
+        o2l = st.tuples(offs, st.lists(st.integers(0, 100000), min_size=12, max_size=12),
+                        st.lists(st.integers(-5, 70010), min_size=1, max_size=8)).map(
+            lambda p: {"k": "o2l", "starts": [[o, p[1][i]] for i, o in enumerate(p[0])], "queries": p[2]})
+        return st.one_of(base, base, base, base, host_case(), o2l)
+
+    def judge_o2l(self, case, ctx):
+        from vf import refworker as rw
+        from vf.run import Result
+        res = Result()
+        starts, queries = case.get("starts"), case.get("queries")
+        if not isinstance(starts, list) or not isinstance(queries, list) or any(
+                not (isinstance(p, list) and len(p) == 2) for p in starts) or [p[0] for p in starts] != sorted(set(p[0] for p in starts)):
+            res.reject = "malformed-case"
+            return res
+        x = rw.xd()
+        pairs = [(a, b) for a, b in starts]
+        for q in queries:
+            # the documented contract: line of the greatest start offset <= q; 0 before the first start / empty list
+            want = 0
+            for o, l in pairs:
+                if o <= q:
+                    want = l
+            try:
+                got = x.offset2line(q, pairs)
+            except Exception as e:
+                res.fail("C05|offset2line|raised|%s" % type(e).__name__, "offset2line(%d, %s) raised %s" % (q, pairs[:6], e))
+                continue
+            if got != want:
+                where = "before-first" if (not pairs or q < pairs[0][0]) else ("exact" if any(o == q for o, _ in pairs) else (
+                    "after-last" if q > pairs[-1][0] else "between"))
+                res.fail("C05|offset2line|%s" % where, "offset2line(%d, %s) = %s, expected %s" % (q, pairs[:8], got, want))
+        res.evals = len(queries)
+        res.nontrivial = len(pairs) >= 2
+        res.key = ["o2l", starts, queries]
+        res.classes = ["source:offset2line", "starts:%d" % min(len(pairs), 5)]
+        res.sample = {"kind": "offset2line", "starts": starts[:6], "queries": queries[:6]}
+        return res
 
     def judge(self, case, ctx):
+        if case.get("k") == "o2l":
+            return self.judge_o2l(case, ctx)
         if case.get("k") != "host":
             return super().judge(case, ctx)
         from vf.pool import HOSTS
